@@ -42,6 +42,12 @@ def run (t : Tier) : Emit Unit := do
           let s' := { s with header := s.header.map fun h => { h with sectionSyntaxIndicator := !h.sectionSyntaxIndicator, privateBit := !h.privateBit, sectionLength := (h.sectionLength + 7) % 4096 } }
           let d' : PSIData := { pointerField := 0, sections := [s'] }
           emit "C13" { op := "writePSI", args := [("psi", d'.toJson)], model := showWrite (writePSIData d'), spec := none, tag := "write-header-flags-contradict-table-id" }
+  -- (1g) the writer with pointer fields 0..40 (filler bytes of value 0 in front of the first section)
+  for ptr in [0, 1, 2, 7, 8, 9, 10, 16, 17, 31, 40] do
+    let (s, bs) ← liftGen (genSectionOfKind (ptr % 2) false)
+    let d : PSIData := { pointerField := ptr, sections := [s] }
+    emit "C13" { op := "writePSI", args := [("psi", d.toJson)], model := showWrite (writePSIData d),
+                 spec := some (showWrite (.ok (Spec.unitEncode ptr [bs] 0))), tag := "write-pointer-field" }
   -- (1a) a section whose struct says SectionLength 0 (the writer then emits nothing but the three header bytes) in front
   --      of, between and behind ordinary sections of one unit, and in a call of its own between ordinary calls: whatever
   --      the writer keeps between sections and calls must not leak into the next section
